@@ -43,7 +43,7 @@
 //! values are therefore generated without NULL children (top-level NULLs only).
 //!
 //! Deviations from DESIGN.md: lives in vf-fn (not vf-expr); Spark aggregates are out of scope of this
-//! crate; quick = ~85 cases per function instead of 60.
+//! crate; quick = ~650 cases per function instead of 60 (a case costs well under a millisecond).
 //!
 //! Sensitivity probes: see the end of this header (filled in after running them).
 use crate::vals::*;
@@ -856,7 +856,7 @@ impl Property for C07 {
         case_strategy(tier)
     }
     fn budget(&self, tier: Tier) -> Budget {
-        Budget::new(tier.pick(9_000, 400_000), tier.pick(8, 16)).min_nontrivial(tier.pick(2_500, 100_000)).discard_cap(0.3)
+        Budget::new(tier.pick(24_000, 1_000_000), tier.pick(8, 16)).min_nontrivial(tier.pick(6_000, 250_000)).discard_cap(0.3)
     }
     fn rule(&self) -> String {
         "function and coerced argument-type vector drawn uniformly from the catalog (all default aggregates minus the sketch quantiles; vectors = planner-coerced fixpoints accepted by create_accumulator); \
